@@ -56,6 +56,7 @@ from ._validation import (
     validate_consistent_type_annotations,
     validate_scopes,
     validate_unique_output_names,
+    validate_unique_outputs,
 )
 
 if TYPE_CHECKING:
@@ -330,6 +331,7 @@ class Pipeline:
             Shortcut for accessing the function corresponding to a specific output name.
 
         """
+        validate_unique_outputs(self.functions)  # else a later function would silently shadow an earlier one
         output_to_func: dict[OUTPUT_TYPE, PipeFunc] = {}
         for f in self.functions:
             output_to_func[f.output_name] = f
